@@ -1,5 +1,13 @@
 """Human-written level texts for MANIFEST.json."""
 META = {
+    "C15": dict(
+        text="Proof (decision logic stated outright): a record is produced iff the payload is a produce request and a topic is known, the request's topic wins, the "
+             "value is unchanged, nothing goes to children (produce_iff, produce_topic_value, wrong_type_rejected); the error JSON preserves structured errors and maps "
+             "everything else to ERR_UNKNOWN + text (structured_preserved, unstructured_unknown); a report is one object with exactly timestamp/event/error, and an "
+             "unserialisable payload changes only the event field (report_shape, report_payload_independent). Tied to the real nodes over a scripted producer; produced "
+             "bytes are parsed with encoding/json. Sequences of requests on one node are read back only at the end, so aliasing between records is visible.",
+        note="Trusted: Lean kernel, model transcription, encoding/json (exercised only), scripted producer.",
+    ),
     "C11": dict(
         text="Proof: for every tree, subscription assignment, message type and failing subset, the Lean model of the delivery walk hands the message to exactly the "
              "subscribed source and nodes, each exactly once in preorder (deliver_exact, deliver_nodup, via walk_N/walk_L by mutual structural induction and "
